@@ -579,6 +579,98 @@ fn after_a_long_history(out: &mut JobOut) {
     }
 }
 
+/// Integer element types: Linear / Bilinear with extrapolate(true) on i32 / i64 axes (left of zero,
+/// right of zero, across zero, starting at zero). The data have whole-numbered slopes per interval,
+/// so the end line evaluated at any whole-numbered query is exact whatever the order of operations.
+/// Every whole number within 30 of the range on either side, in range: equal to extrapolate(false).
+fn integer_axes(out: &mut JobOut) {
+    use ndarray::{Array1, Array2};
+    use ndarray_interp::interp1d::{Interp1DBuilder, Linear};
+    use ndarray_interp::interp2d::{Bilinear, Interp2DBuilder};
+    macro_rules! run {
+        ($t:ty, $name:expr) => {{
+            let axes: Vec<Vec<i64>> = vec![vec![10, 20, 40], vec![-40, -20, -10], vec![3, 4, 9, 10], vec![-5, 5, 6], vec![0, 2, 3], vec![1, 2], vec![-7, -6, -2, -1], vec![100, 101, 103, 106, 110]];
+            let slopes: [i64; 6] = [3, -2, 5, 1, -4, 2];
+            for ax in &axes {
+                let n = ax.len();
+                let mut y: Vec<i64> = vec![7];
+                for i in 1..n {
+                    y.push(y[i - 1] + slopes[(i - 1) % 6] * (ax[i] - ax[i - 1]));
+                }
+                let x: Array1<$t> = ax.iter().map(|&v| v as $t).collect();
+                let d: Array1<$t> = y.iter().map(|&v| v as $t).collect();
+                let key = format!("integer-axes:{}:{:?}", $name, ax).replace(' ', "");
+                let (Ok(Ok(ext)), Ok(Ok(plain))) = (
+                    catch(|| Interp1DBuilder::new(d.clone()).x(x.clone()).strategy(Linear::new().extrapolate(true)).build()),
+                    catch(|| Interp1DBuilder::new(d.clone()).x(x.clone()).strategy(Linear::new()).build()),
+                ) else {
+                    out.violate(key, "valid integer input not accepted by build()".to_string(), Json::Null);
+                    continue;
+                };
+                out.states += 1;
+                for q in ax[0] - 30..=ax[n - 1] + 30 {
+                    let want = if q < ax[0] {
+                        y[0] + slopes[0] * (q - ax[0])
+                    } else if q > ax[n - 1] {
+                        y[n - 1] + slopes[(n - 2) % 6] * (q - ax[n - 1])
+                    } else {
+                        let i = (0..n - 1).rev().find(|&i| ax[i] <= q).unwrap().min(n - 2);
+                        y[i] + slopes[i % 6] * (q - ax[i])
+                    };
+                    let inside = q >= ax[0] && q <= ax[n - 1];
+                    let got = catch(|| ext.interp_scalar(q as $t));
+                    out.evals += 1;
+                    out.nontrivial += 1;
+                    out.transitions += 1;
+                    let mut bad = match &got {
+                        Ok(Ok(v)) if *v as i64 == want => None,
+                        Ok(Ok(v)) => Some(format!("returned {v}, the {} gives {want}", if inside { "chord" } else { "line of the nearest end interval" })),
+                        other => Some(format!("finite query not answered: {other:?}")),
+                    };
+                    if inside && bad.is_none() {
+                        if !matches!(catch(|| plain.interp_scalar(q as $t)), Ok(Ok(v)) if v as i64 == want) {
+                            bad = Some("differs from the interpolator without extrapolation".to_string());
+                        }
+                    }
+                    out.outcome(if bad.is_none() { "integer-axes:ok" } else { "integer-axes:bad" });
+                    if let Some(w) = bad {
+                        out.violate(key.clone(), format!("Linear with extrapolate(true) over the {} axis {ax:?}, data {y:?}, query {q}: {w}", $name), Json::obj(vec![("type", Json::str($name)), ("query", Json::Int(q as i128))]));
+                        break;
+                    }
+                }
+                // Bilinear: z = 2 + 3x - y + 2xy on (axis) x [-3, 1, 2] and on [-3, 1, 2] x (axis)
+                let other: Vec<i64> = vec![-3, 1, 2];
+                for as_x in [true, false] {
+                    let (gx, gy) = if as_x { (ax.clone(), other.clone()) } else { (other.clone(), ax.clone()) };
+                    let z = |a: i64, b: i64| 2 + 3 * a - b + 2 * a * b;
+                    let data = Array2::from_shape_fn((gx.len(), gy.len()), |(i, j)| z(gx[i], gy[j]) as $t);
+                    let (xa, ya): (Array1<$t>, Array1<$t>) = (gx.iter().map(|&v| v as $t).collect(), gy.iter().map(|&v| v as $t).collect());
+                    let Ok(Ok(ip)) = catch(|| Interp2DBuilder::new(data.clone()).x(xa.clone()).y(ya.clone()).strategy(Bilinear::new().extrapolate(true)).build()) else {
+                        out.violate(format!("{key}:bilinear"), "valid integer grid not accepted by build()".to_string(), Json::Null);
+                        continue;
+                    };
+                    out.states += 1;
+                    'grid: for a in gx[0] - 12..=gx[gx.len() - 1] + 12 {
+                        for b in gy[0] - 12..=gy[gy.len() - 1] + 12 {
+                            let got = catch(|| ip.interp_scalar(a as $t, b as $t));
+                            out.evals += 1;
+                            out.nontrivial += 1;
+                            out.transitions += 1;
+                            if !matches!(&got, Ok(Ok(v)) if *v as i64 == z(a, b)) {
+                                out.violate(format!("{key}:bilinear:{}", if as_x { "x" } else { "y" }), format!("Bilinear with extrapolate(true) over the {} grid {gx:?} x {gy:?} (z = 2 + 3x - y + 2xy), query ({a}, {b}): {got:?}, the bilinear form of the border cell gives {}", $name, z(a, b)), Json::Null);
+                                break 'grid;
+                            }
+                        }
+                    }
+                }
+            }
+        }};
+    }
+    run!(i64, "i64");
+    run!(i32, "i32");
+    out.sample = Some(Json::str("8 integer axes, every whole-numbered query within 30 of the range"));
+}
+
 fn body(ctx: &Ctx) -> (Summary, Meta) {
     let quick = ctx.quick();
     let mut jobs = vec![];
@@ -649,6 +741,11 @@ fn body(ctx: &Ctx) -> (Summary, Meta) {
         }
         out
     });
+    sum.merge(run_jobs(ctx, "integer-axes", &[()], |_| "integer-axes".to_string(), |_| {
+        let mut out = JobOut::default();
+        integer_axes(&mut out);
+        out
+    }));
     sum.merge(run_jobs(ctx, "builder-option-histories", &[()], |_| "builder-option-histories".to_string(), |_| {
         let mut out = JobOut::default();
         nimc::subj::check_spline_option_histories(4, &|_b, e| e, &mut out);
@@ -658,7 +755,7 @@ fn body(ctx: &Ctx) -> (Summary, Meta) {
         out
     }));
     let meta = Meta {
-        rule: "for every (axis, strategy) pair build the extrapolating interpolator and its non-extrapolating twin: (i) every finite outside query {1,2 ulp, 2^-10 P, P/4, P, 3P, 100P on both sides, +-MAX} is answered through 6 call forms incl. 2-d and dynamic query arrays and *_into; (ii) in-range results are bit-identical to the twin; (iii) outside values equal the exact continuation of the end chord / the certified exact end cubic / the border cell's bilinear form (2-D: outside in x, in y, in both). Non-trivial = an outside query compared with the exact continuation. After 70000 in-range queries on a geometric axis (single and batched) the extrapolated answers equal those of a fresh interpolator. After a caught panic (NaN query, NaN inside a batch, wrongly shaped buffer) every extrapolating interpolator still answers every finite query with the same bits. Phase builder-option-histories: every sequence of up to 4 CubicSpline option calls over {boundary(NotAKnot), boundary(Natural), boundary(Periodic), extrapolate(true), extrapolate(false)} that denotes an extrapolating configuration answers 18 queries (in range, just outside, far outside) bit-identically to the canonical two-call history of that configuration.".into(),
+        rule: "for every (axis, strategy) pair build the extrapolating interpolator and its non-extrapolating twin: (i) every finite outside query {1,2 ulp, 2^-10 P, P/4, P, 3P, 100P on both sides, +-MAX} is answered through 6 call forms incl. 2-d and dynamic query arrays and *_into; (ii) in-range results are bit-identical to the twin; (iii) outside values equal the exact continuation of the end chord / the certified exact end cubic / the border cell's bilinear form (2-D: outside in x, in y, in both). Non-trivial = an outside query compared with the exact continuation. After 70000 in-range queries on a geometric axis (single and batched) the extrapolated answers equal those of a fresh interpolator. After a caught panic (NaN query, NaN inside a batch, wrongly shaped buffer) every extrapolating interpolator still answers every finite query with the same bits. Phase builder-option-histories: every sequence of up to 4 CubicSpline option calls over {boundary(NotAKnot), boundary(Natural), boundary(Periodic), extrapolate(true), extrapolate(false)} that denotes an extrapolating configuration answers 18 queries (in range, just outside, far outside) bit-identically to the canonical two-call history of that configuration. Phase integer-axes: Linear and Bilinear with extrapolate(true) over 8 i32 / i64 axes (left of zero, right of zero, across zero, from zero) with whole-numbered slopes per interval: every whole-numbered query within 30 (2-D: 12) of the range on every side equals the line of the nearest end interval / the bilinear form exactly; in range equal to the non-extrapolating interpolator.".into(),
         bounds: format!("{njobs} (type, axis/grid, strategy) jobs; Linear on value-set subsets + words + long words; CubicSpline on word axes n<=7 x 32 non-periodic boundary configurations; Bilinear on all ordered pairs of the 2-D axis set; tier {}", ctx.tier.name()),
         assumptions: vec!["tolerances: Linear 8 eps max(|y1|,|y2|,|t||y2-y1|); spline 16 K eps scale max(1,|t|)^3 (see C16); bilinear 24 eps max|z| (1+|tx|)(1+|ty|)".into()],
         extra: vec![],
